@@ -6,11 +6,12 @@ import common
 import rfigc_util as ru
 from common import hx
 
-LEAN_MODULES = ["Pff.Props.C17", "Pff.Props.Csv", "Pff.Props.Path"]
+LEAN_MODULES = ["Pff.Props.C17", "Pff.Props.Csv", "Pff.Props.Path", "Pff.Props.RfigcDb"]
 PROP_MODULE = "Pff.Props.C17"
 THEOREMS = ["Pff.Rfigc.C17_recover", "Pff.Rfigc.C17_complete", "Pff.Rfigc.C17_unknown_ignored",
             "Pff.Csv.C05_csv_roundtrip",
             "Pff.Csv.C05_db_roundtrip",
+            "Pff.RfigcDb.C05_db_file_roundtrip",
             "Pff.Path.PATH_gen_root_independent", "Pff.Path.PATH_relFS_nodup"]
 MODELLED = [("pyFileFixity/rfigc.py", "main")]
 TRUSTED_BASE = [
